@@ -59,6 +59,8 @@ def tie(ctx, broken):
 
 
 def search(ctx, broken):
+    if R.truncate_search(ctx, R.mon_c10):
+        return True
     import random
     rng = random.Random(ctx.seed + 99)
     plan = []
